@@ -16,6 +16,9 @@ THEOREMS = [
     "TornadoModel.C31.reverse_eq_spec",
     "TornadoModel.C31.reverse_then_match",
     "TornadoModel.C31.reverse_routes_back",
+    "TornadoModel.C31.reverse_url_sound",
+    "TornadoModel.C31.reverse_url_routes_back",
+    "TornadoModel.C31.app_reverse_url_routes_back",
 ]
 TRUSTED = [
     "CPython `re` for arbitrary user patterns: the model takes match results as the parameter `m` (a table computed by "
@@ -30,23 +33,45 @@ ASSUMPTIONS = [
     "nested routers are ReversibleRuleRouter/_ApplicationRouter instances; targets are RequestHandler classes, callables, "
     "routers, or an inert object; patterns are given as `str` (pre-compiled/bytes patterns are not generated)",
     "path patterns use positional groups or names g1,g2,… in order (keyword arguments are compared in group order)",
+    "reverse clause, oracle: `reversible rule` = path rule whose pattern has the shape lit0(g1)lit1…(gn)litn (capturing groups "
+    "without nested parentheses, escaped non-alphanumerics in literals, no parentheses in literals, no quantifier/alternation "
+    "outside groups); `that rule` = the rule reverse_url resolves the name to (last of that name at a level, else first nested "
+    "router that knows it); `routes to that rule` is demanded only when every rule it is nested in accepts the url/host and no "
+    "earlier rule takes the url (both decided by the Lean first-match Spec on sub-trees), and only for handler targets",
     "reverse_then_match: literals between two groups contain a character the preceding group refuses (e.g. `/`), "
     "no parentheses in literals, pattern written with an explicit trailing `$` in the theorem "
     "(the generator also omits it when the last literal does not end in `$`)",
 ]
-RULE = ("rule trees (host rules, nested routers depth<=3, literal/capturing/raw patterns over / a b - . _ % ~ +), hosts, paths "
+RULE = ("rule trees (host/any rules also inside Applications, nested routers depth<=3, literal/capturing/raw patterns over / a b - . _ % ~ +), hosts, paths "
         "derived from the patterns plus percent-escapes and mutations; named reversible rules reversed with generated arguments "
         "and routed back.  non-trivial = at least two leaves' chains accept the request, or a nested router falls through, or a "
         "reversal succeeds and routes back; distinct by canonical JSON")
 EXHAUSTIVE = {"quick": False, "thorough": False}
 CLAUSES = {
-    "dispatched to the first rule whose patterns match the whole host and path (host rules, path rules, nested routers)":
-        "first_match_wins + app_first_match_wins + first_match_characterised (for every regex engine `m`)",
+    "dispatched to the first rule (host rules, path rules, nested routers) whose patterns match":
+        "first_match_wins + app_first_match_wins + first_match_characterised (for every regex engine `m`: the theorems are about "
+        "the ORDER in which rules are consulted and fall-through, whatever `matches` means)",
+    "match the WHOLE host and path":
+        "tie only: the regex engine is the parameter `m`; whole-match is the `$` the code appends (`normDollar`) together with "
+        "CPython `re`. The table for `m` is read off the implementation's own compiled `regex`/`host_pattern` objects and keyed "
+        "by their `.pattern`, the model looks it up under `normDollar p` (a missing `$` is a key miss -> mismatch; mutant "
+        "C31-host-dollar); for fragment patterns `matchPat` (whole-string by definition) is compared with CPython on every case",
     "or to the 404/default handler if none does": "no_match_default",
-    "with the captured groups URL-unescaped": "groups_unescaped + unquote_quote",
-    "reverse_url returns a path that routes to that rule with the same arguments":
-        "reverse_eq_spec + reverse_then_match + reverse_routes_back (patterns lit(G)lit…(G)lit, G in {[^/]+,[0-9]+}; "
-        "`matchPat` is tied to CPython `re` by the correspondence stream)",
+    "with the captured groups URL-unescaped": "groups_unescaped (which groups reach the handler) + unquote_quote (unquote is the "
+        "inverse of quote); that `unquote` IS urllib's unquote_to_bytes is tie only (prim stream)",
+    "reverse_url returns a path ... (named lookup, nested routers, Application)":
+        "reverse_url_sound (any patterns, any nesting: the result is PathMatches.reverse of a path rule carrying that name) + "
+        "reverse_eq_spec (fragment patterns lit(G)lit…(G)lit, G in {[^/]+,[0-9]+}: reverse = literals interleaved with quoted args)",
+    "... that routes to that rule with the same arguments":
+        "reverse_then_match + reverse_routes_back + reverse_url_routes_back + app_reverse_url_routes_back: fragment patterns only, "
+        "the rule registered under the name standing anywhere in ONE router's list / in the handler list of an Application without "
+        "host groups, handler target, no earlier rule taking the url (shadowing is a hypothesis), engine = `matchPat` on that "
+        "pattern (tied to CPython `re` by the correspondence stream). "
+        "tie only: named rules inside nested routers / host groups, and every other reversible pattern ((.*), (\\d+), (\\w+), "
+        "named groups, …): the oracle decides `representable` with CPython `re` as the matcher parameter (pattern matches the WHOLE "
+        "spec url lit0+quote(a1)+lit1… with groups that unquote to the args) and then demands: reverse_url succeeds, the pattern "
+        "matches the whole returned url with the same args, and real routing of the url reaches that rule's handler with the same "
+        "args unless the first-match Spec says a rule above it refuses or an earlier rule takes it",
 }
 PARALLEL = True
 CASE_TIMEOUT = 120
@@ -59,10 +84,150 @@ HOSTS = ["www.example.com", "ex.com:8080", "EX.com", "a.b", "[::1]:80", "x.test"
          "a.b:", "127.0.0.1:8888"]
 RAW_PATS = [r"/a.*", r"/(\d+)/(\w*)", r"/(?P<g1>[^/]+)/(?P<g2>\d+)", r"/a(?:/(b))?", r".*", r"/x/(a|b)", r"/a\.b", r"/\d+",
             r"^/a", r"/a$", r"/(a)?(b)?", r"/b/(.*)", r"/a/(?P<g1>.*)", r"/(a+)(a*)", r"/%41", r"/a%b/(\w+)", r"/a\)b",
-            r"/([^/]*)", r"/a/b", r"/", r"", r"/(?:a|b)/([0-9]+)", r"/a\-b/(.+)", r"/\(x\)", r"/a(/b)", r"/%s/(a)"]
+            r"/([^/]*)", r"/a/b", r"/", r"", r"/(?:a|b)/([0-9]+)", r"/a\-b/(.+)", r"/\(x\)", r"/a(/b)", r"/%s/(a)",
+            r"/(.*)", r"/(\w+)", r"/(\d+)", r"/p/(\w+)/(\d+)", r"/(.*)/x", r"/([a-z]+)-([0-9]+)", r"/b/(?P<g1>\w+)/(?P<g2>.*)",
+            r"/login", r"/a/7"]
 GROUP_FILL = ["a", "b", "ab", "7", "42", "007", "a%20b", "%2F", "%2f", "%41", "%zz", "%", "%4", "a-b", "a.b", "~", "+", "a+b", "\xe9",
               "%E9", "%C3%A9", "x%", "%%41", "_", "0", "a_b%2Fc"]
 ARG_POOL = ["a", "b", "ab", "7", "42", "007", "a b", "a/b", "", "\xe9", "a%b", "%41", "~", "a+b", "x.y-z_", "€", "0", "a\nb", "?", "#"]
+
+
+
+# ------------------------------------------------------------------------------------------- the reverse clause, oracle side
+_RE_META = set(".^$*+?{}[]|()")
+
+
+def _parse_reversible(pat):
+    """(literals, group sources) of a pattern of the shape  lit0 (g1) lit1 … (gn) litn :
+    capturing groups (positional or `(?P<name>…)`) without nested parentheses, literal text made of plain characters and
+    backslash escapes of non-alphanumerics other than parentheses, optional leading `^` / trailing `$`.
+    None = not a pattern the reverse clause of the property is applied to (alternation/quantifiers outside groups,
+    nested or non-capturing groups, parentheses in literals: the code refuses or is not asked to reverse those)."""
+    s = pat
+    if s.startswith("^"):
+        s = s[1:]
+    if s.endswith("$"):
+        if s.endswith("\\$"):
+            return None
+        s = s[:-1]
+    lits, groups = [""], []
+    i = 0
+    while i < len(s):
+        c = s[i]
+        if c == "\\":
+            if i + 1 >= len(s):
+                return None
+            d = s[i + 1]
+            if (d.isascii() and d.isalnum()) or d in "()":
+                return None
+            lits[-1] += d
+            i += 2
+        elif c == "(":
+            j = s.find(")", i)
+            if j < 0:
+                return None
+            body = s[i + 1:j]
+            if "(" in body or body.endswith("\\"):
+                return None
+            if body.startswith("?") and not re.match(r"\?P<\w+>", body):
+                return None
+            groups.append(body)
+            lits.append("")
+            i = j + 1
+        elif c in _RE_META:
+            return None
+        else:
+            lits[-1] += c
+            i += 1
+    return lits, groups
+
+
+def _spec_tree(case):
+    """the ordered rule tree the property speaks about.  Application (web.py `__init__` / `add_handlers`): the host
+    groups in call order, then the application's own handlers followed by the `default_host` copies of the host groups."""
+    if case["kind"] != "app":
+        return case["rules"]
+    blank = {"kw": None, "name": None}
+    hg = case["host_groups"]
+    wild = list(case["rules"])
+    if case["default_host"] is not None:
+        wild += [dict(blank, m=["dhost", p], t=["r", rs]) for p, rs in hg]
+    return [dict(blank, m=["host", p], t=["r", rs]) for p, rs in hg] + [dict(blank, m=["any"], t=["r", wild])]
+
+
+def _resolve(rules, name):
+    """index path of the rule `reverse_url(name)` means: the last rule of that name at a level, else the first nested
+    router (in rule order) that knows the name"""
+    hit = None
+    for i, r in enumerate(rules):
+        if r["name"] == name:
+            hit = i
+    if hit is not None:
+        return [hit]
+    for i, r in enumerate(rules):
+        if r["t"][0] == "r":
+            sub = _resolve(r["t"][1], name)
+            if sub is not None:
+                return [i] + sub
+    return None
+
+
+def _rule_at(rules, idx):
+    r = rules[idx[0]]
+    return r if len(idx) == 1 else _rule_at(r["t"][1], idx[1:])
+
+
+def _pruned(rules, idx):
+    """only the rule and the rules it is nested in"""
+    r = rules[idx[0]]
+    return [r] if len(idx) == 1 else [dict(r, t=["r", _pruned(r["t"][1], idx[1:])])]
+
+
+def _prefix(rules, idx):
+    """everything that stands before the rule in depth-first rule order"""
+    i = idx[0]
+    r = rules[i]
+    return rules[:i] if len(idx) == 1 else rules[:i] + [dict(r, t=["r", _prefix(r["t"][1], idx[1:])])]
+
+
+def _rev_checks(case, impl):
+    """per reversal: None, or what the reverse clause demands —
+    {"rule", "idx", "args": [hex], "url": spec url} when the resolved rule is a path rule of the reversible shape and the
+    arguments are representable in its groups: the pattern, matched against the WHOLE spec url by CPython `re` (the matcher
+    parameter), gives back groups that percent-decode to the arguments."""
+    tree = _spec_tree(case)
+    out = []
+    for rv in case["revs"]:
+        out.append(None)
+        idx = _resolve(tree, rv["name"])
+        if idx is None:
+            continue
+        rule = _rule_at(tree, idx)
+        if rule["m"][0] != "path":
+            continue
+        shape = _parse_reversible(rule["m"][1])
+        if shape is None:
+            out[-1] = "not-reversible-shape"
+            continue
+        lits, groups = shape
+        args = [_arg_bytes(a) for a in rv["args"]]
+        if len(args) != len(groups):
+            out[-1] = "wrong-count"
+            continue
+        url = lits[0] + "".join(urllib.parse.quote(a) + l for a, l in zip(args, lits[1:]))
+        if _whole_match(rule["m"][1], url) != [a.hex() for a in args]:
+            out[-1] = "unrepresentable"
+            continue
+        out[-1] = {"rule": rule, "idx": idx, "args": [a.hex() for a in args], "url": url}
+    return out
+
+
+def _whole_match(pat, url):
+    """groups (percent-decoded, hex) of the pattern matched against the whole url by CPython `re`; None = no match"""
+    mm = re.compile(pat).fullmatch(url)
+    if mm is None:
+        return None
+    return [urllib.parse.unquote_to_bytes(g).hex() if g is not None else None for g in mm.groups()]
 
 
 # ------------------------------------------------------------------------------------------- generators
@@ -111,9 +276,9 @@ def _gen_rules(rng, depth, names, top=False, app=False):
         k = rng.random()
         if k < 0.70:
             m = _path_matcher(rng)
-        elif k < 0.85 and not app:
+        elif k < 0.85 and (not app or rng.random() < 0.5):
             m = ["host", rng.choice(HOST_PATS)]
-        elif k < 0.93 and not app:
+        elif k < 0.93 and (not app or rng.random() < 0.5):
             m = ["any"]
         else:
             m = _path_matcher(rng)
@@ -176,7 +341,8 @@ def _gen_paths(rng, rules, n):
                 p = _fill(rng, m[2])
             else:
                 p = rng.choice(["/a", "/a/b", "/1/x", "/12/", "/x/7", "/a/", "/b/q/r", "/aaa", "/x/a", "/x/b", "/a.b", "/axb", "/%41",
-                                "/a%b/w", "/a)b", "/", "", "/a/5", "/b/9", "/a-b/zz", "/(x)", "/7", "/%s/a", "/a%2Fb"])
+                                "/a%b/w", "/a)b", "/", "", "/a/5", "/b/9", "/a-b/zz", "/(x)", "/7", "/%s/a", "/a%2Fb",
+                                "/login", "/a/7", "/p/ab/7", "/q/x", "/ab-12", "/b/a_b/", "/b/w/x/y", "/%E9"])
             if rng.random() < 0.3:
                 p = _mutate(rng, p)
         else:
@@ -191,7 +357,23 @@ def _gen_args(rng, P, raw=None):
     if k < 0.12:
         n = max(0, n + rng.choice([-1, 1]))
     args = []
+    shape = _parse_reversible(raw) if (raw is not None and not P) else None
     for i in range(n):
+        if shape is not None and i < len(shape[1]) and rng.random() < 0.7:
+            # an argument aimed at what the i-th group of a raw pattern can take
+            g = shape[1][i]
+            if "d" in g or "0-9" in g:
+                a = rng.choice(["7", "42", "007", "0", 5, 1234, ""])
+            elif "w" in g or "a-z" in g:
+                a = rng.choice(["a", "ab", "a_b", "7", "", "x9", "\xe9"])
+            elif "." in g or "^" in g:
+                a = rng.choice(["a", "a b", "", "a/b", "\xe9", "%41", "a+b", "?", "x.y-z_", "a%b"])
+            else:
+                a = rng.choice(["a", "b", "/b", "ab", ""])
+            if isinstance(a, str) and rng.random() < 0.15:
+                a = {"b": a.encode("utf-8").hex()}
+            args.append(a)
+            continue
         g = P["segs"][i][0] if P and i < len(P["segs"]) else "seg"
         r = rng.random()
         if g == "digits" and r < 0.8:
@@ -335,6 +517,7 @@ def _build_rules(rules, app, log):
 
 
 def _canon_exc(e):
+    """a small enum; never formats the exception (`str(e)` of e.g. tornado.web.HTTPError can itself raise)"""
     if type(e).__name__ == "Hang":
         raise e                      # the runner's watchdog, not an outcome of the implementation
     for t in (ValueError, AssertionError, TypeError, KeyError):
@@ -470,6 +653,18 @@ def _run_impl(case):
     from tornado.web import Application
     log = []
     is_app = case["kind"] == "app"
+    try:
+        app, top = _build(case, log)
+    except Exception as e:
+        # building a router from valid patterns never raises in the code as it is; a changed implementation may
+        return {"build_error": _canon_exc(e)}
+    return _run_built(case, app, top, log)
+
+
+def _build(case, log):
+    from tornado.routing import ReversibleRuleRouter
+    from tornado.web import Application
+    is_app = case["kind"] == "app"
     if is_app:
         settings = {}
         if case["default_handler"] is not None:
@@ -485,6 +680,11 @@ def _run_impl(case):
     else:
         app = None
         top = ReversibleRuleRouter(_build_rules(case["rules"], False, log))
+    return app, top
+
+
+def _run_built(case, app, top, log):
+    is_app = case["kind"] == "app"
     reqs = []
     for rq in case["reqs"]:
         try:
@@ -538,7 +738,10 @@ def _run_impl(case):
             except Exception as e:
                 entry["back"] = _canon_exc(e)
             # does the named rule itself take the URL back, with the same arguments?
-            entry["own"] = _own_match(top, "n%d" % rv["name"], u)
+            try:
+                entry["own"] = _own_match(top, "n%d" % rv["name"], u)
+            except Exception as e:
+                entry["own"] = _canon_exc(e)
         out["revs"].append(entry)
     acc_m, acc_ng = {}, {}
     _collect_tables(top, [r for r in reqs if "req" in r] + back_reqs, case.get("default_host"), acc_m, acc_ng)
@@ -609,11 +812,20 @@ def run_impl(case):
     import time
     c0 = time.process_time()
     try:
-        return _run_impl(case)
+        return _run_impl_safe(case)
     except BaseException as e:
         if type(e).__name__ == "Hang" and time.process_time() - c0 < 10:
-            return _run_impl(case)
+            return _run_impl_safe(case)
         raise
+
+
+def _run_impl_safe(case):
+    """every exception of the implementation is an outcome, mapped to a small enum here (never via `str(e)`); only the
+    runner's watchdog (a KeyboardInterrupt subclass) passes"""
+    try:
+        return _run_impl(case)
+    except Exception as e:
+        return {"build_error": "escaped:" + _canon_exc(e)}
 
 
 # ------------------------------------------------------------------------------------------- model / spec
@@ -637,7 +849,7 @@ def _enc_table(tbl):
 
 
 def _requests(case, impl, spec):
-    if "harness_exc" in impl:
+    if "harness_exc" in impl or "build_error" in impl:
         return []
     if case["kind"] == "prim":
         if spec:
@@ -689,6 +901,14 @@ def _requests(case, impl, spec):
             P = _named_P(case, rv["name"])
             if P is not None:
                 lines.append(line(ID, "wf", _enc_P(P), [_arg_bytes(a) for a in rv["args"]]))
+        # "routes to that rule": the first-match spec on (a) the rule with the rules it is nested in, (b) everything
+        # that stands before it.  (a) = none: a rule above it refuses the url/host; (b) = a hit: shadowed.
+        tree = _spec_tree(case)
+        for chk, e in zip(_rev_checks(case, impl), impl["revs"]):
+            if isinstance(chk, dict) and "back_path" in e and chk["rule"]["t"][0] == "h":
+                req = [e["back_host_name"], e["back_path"], atom(False)]
+                for sub in (_pruned(tree, chk["idx"]), _prefix(tree, chk["idx"])):
+                    lines.append(line(ID, "specfind", _enc_rules(sub), req, case.get("default_host"), tbl))
     return lines
 
 
@@ -758,6 +978,8 @@ def model_result(case, replies):
 def impl_view(case, impl):
     if case["kind"] == "prim":
         return impl
+    if "build_error" in impl:
+        return ["build_error", impl["build_error"]]       # the model never predicts this: a mismatch
     out = [r for r, hn in zip(impl["routes"], impl["host_names"]) if hn is not None]
     for e in impl["revs"]:
         out.append(e["res"])
@@ -772,6 +994,8 @@ def spec_violation(case, impl, replies):
         if isinstance(impl.get("v"), str) and impl["v"].startswith("Uncaught"):
             return "%s raised %s" % (case["op"], impl["v"])
         return None
+    if "build_error" in impl:
+        return "build: constructing the router from valid rules raised %s" % impl["build_error"]
     want = [_py(r) for r in replies]
     i = 0
     for k, (route, hn) in enumerate(zip(impl["routes"], impl["host_names"])):
@@ -793,13 +1017,23 @@ def spec_violation(case, impl, replies):
                 return "dispatch of reversed url: first-match spec says %r, implementation gave %r" % (w, e["back"])
         else:
             backs.append(None)
+    lean_ok = []
     for rv, e in zip(case["revs"], impl["revs"]):
         P = _named_P(case, rv["name"])
         if P is None:
+            lean_ok.append(False)
             continue
         wf, ok = want[i]
         i += 1
-        if not (wf and ok):
+        lean_ok.append(bool(wf and ok))
+    for rv, e, chk, lok in zip(case["revs"], impl["revs"], _rev_checks(case, impl), lean_ok):
+        routes = None
+        if isinstance(chk, dict) and "back_path" in e and chk["rule"]["t"][0] == "h":
+            routes = (want[i][0], want[i + 1][0])
+            i += 2
+        # the clause applies when Lean's Spec (wf pattern, representable args: the theorem-backed fragment) or the
+        # CPython-`re`-parameterised classification (any pattern of the reversible shape) says so
+        if not (lok or isinstance(chk, dict)):
             continue
         args = [_arg_bytes(a).hex() for a in rv["args"]]
         res = e["res"]
@@ -807,12 +1041,53 @@ def spec_violation(case, impl, replies):
             return "reverse: reverse_url of a reversible rule with representable arguments gave %r" % (res,)
         if e.get("own") != args:
             return "reverse: the rule does not take its own reversed url back with the same arguments: %r vs %r" % (e.get("own"), args)
+        if isinstance(chk, dict):
+            own = _whole_match(chk["rule"]["m"][1], res[1])
+            if own != args:
+                return "reverse: the rule's pattern does not match the whole reversed url with the same arguments: %r vs %r" % (own, args)
+        if routes is not None:
+            alone, before = routes
+            rule = chk["rule"]
+            expect = ["hit", rule["t"][1], rule["kw"], args]
+            if alone != "none" and before == "none" and e["back"] != expect:
+                return "reverse: the reversed url is not routed to its rule with the same arguments: %r vs %r" % (e["back"], expect)
     return None
+
+
+def _mixed_literal(rules, paths):
+    """some router level holds a host/any rule in front of a group-less literal path rule whose path is requested"""
+    seen_nonpath = False
+    for r in rules:
+        if r["m"][0] != "path":
+            seen_nonpath = True
+        elif seen_nonpath:
+            sh = _parse_reversible(r["m"][1])
+            if sh is not None and not sh[1] and sh[0][0] in paths:
+                return True
+        if r["t"][0] == "r" and _mixed_literal(r["t"][1], paths):
+            return True
+    return False
+
+
+def _rev_labels(case, impl):
+    out = []
+    for chk, e in zip(_rev_checks(case, impl), impl["revs"]):
+        if chk is None:
+            continue
+        if not isinstance(chk, dict):
+            out.append("rev-oracle:" + chk)
+            continue
+        out.append("rev-oracle:checked-" + ("fragment" if "[^/]+" in chk["rule"]["m"][1] or "[0-9]+" in chk["rule"]["m"][1]
+                                            else "nogroup" if not chk["args"] else "raw"))
+        out.append("rev-oracle:target-" + chk["rule"]["t"][0])
+    return out
 
 
 def nontrivial(case, impl):
     if case["kind"] == "prim":
         return case["op"] == "matchpat" and impl.get("v") is not None
+    if "build_error" in impl:
+        return False
     hits = sum(1 for r in impl["routes"] if isinstance(r, list) and r[0] == "hit")
     back = any(isinstance(e.get("back"), list) and e["back"][0] == "hit" for e in impl["revs"])
     return (hits >= 1 and len(list(_walk(case["rules"]))) >= 2) or back
@@ -825,6 +1100,8 @@ def stats(case, impl):
         if case["op"] == "matchpat":
             out.append("matchpat:" + ("match" if impl.get("v") is not None else "nomatch"))
         return out
+    if "build_error" in impl:
+        return out + ["build_error"]
     for r in impl["routes"]:
         out.append("route:" + (r[0] if isinstance(r, list) else str(r)))
         if isinstance(r, list) and r[0] == "hit":
@@ -836,6 +1113,9 @@ def stats(case, impl):
             out.append("rev-back:" + (e["back"][0] if isinstance(e["back"], list) else str(e["back"])))
             if e.get("own") not in (None, "nomatch"):
                 out.append("rev-own-match")
+    out += _rev_labels(case, impl)
+    if _mixed_literal(_spec_tree(case), set(p for p in impl["paths"] if p is not None)):
+        out.append("mixed:nonpath-rule-before-requested-literal-path")
     depth = lambda rs: 1 + max([depth(r["t"][1]) for r in rs if r["t"][0] == "r"] + [0])
     out.append("depth:%d" % depth(case["rules"]))
     out.append("frag-pairs:%d" % min(20, len(impl["frag"])))
